@@ -20,7 +20,8 @@ def fedSchema (j : Json) : Schema :=
     query := (if j.strD "query" == "" then "Query" else j.strD "query"),
     mutation := (if j.strD "mutation" == "" then "Mutation" else j.strD "mutation"),
     isSubgraph := j.boolD "isSubgraph",
-    failed := (j.arrD "failed").filterMap fun p => match p with | .arr [.str t, .str f] => some (t, f) | _ => none }
+    failed := (j.arrD "failed").filterMap fun p => match p with | .arr [.str t, .str f] => some (t, f) | _ => none,
+    denied := (j.arrD "denied").filterMap fun p => match p with | .arr [.str t, .str f] => some (t, f) | _ => none }
 
 partial def fedVal (j : Json) : Val :=
   match j.get? "var", j.get? "lit", j.get? "list", j.get? "obj" with
